@@ -32,6 +32,8 @@ with functools.reduce / while, or of the refresh with a topological sort, are AN
 """
 import ast
 
+from .. import termflow as _tf
+
 from ..astutil import calls, last_name, parents, u
 from ..formula import extract, same, spec
 from ..model import AnalysisError
@@ -1115,7 +1117,7 @@ def rule_N6(ctx):
     lst = e.args[0]
     if not isinstance(lst, AList):
         unrec("%s: child values %s" % (f.qualname, show(lst)))
-    if ok and (len(lst.items) != 2 or len(lst.doms) != 1):
+    if ok and (len(lst.items) != _tf.K_ELEMS or len(lst.doms) != 1):
         unrec("%s: child list %s" % (f.qualname, show(lst)))
     if ok:
         dom = A(lst.doms[0])
